@@ -33,7 +33,7 @@ class Untranslatable(Exception):
 
 def lty(t):
     if isinstance(t, str):
-        return {"Int": "Int", "Nat": "Nat", "Bool": "Bool", "Str": "String", "Rat": "Rat", "Float": "Float", "Unit": "Unit"}.get(t, t)
+        return {"Int": "Int", "Nat": "Nat", "Bool": "Bool", "Str": "String", "Rat": "Rat", "Float": "Float", "Unit": "Unit", "Stream": "(List Tok)", "OV": "OV"}.get(t, t)
     if t[0] == "List":
         return "(List %s)" % lty(t[1])
     if t[0] == "Opt":
@@ -50,6 +50,11 @@ def lty(t):
 
 
 NUMERIC = ("Int", "Nat", "Rat", "Float")
+
+
+def lstr(t):
+    """Lean string literal"""
+    return '"' + t.replace("\\", "\\\\").replace('"', '\\"').replace("\n", "\\n").replace("\t", "\\t") + '"'
 
 
 class Env(object):
@@ -334,6 +339,13 @@ class Proc(object):
             actual = list(e.args)
             args = []
             for n, t in p["params"]:
+                if n == "self" and actual and isinstance(actual[0], ast.Name) and actual[0].id == "self" and "self" in env.vars:
+                    args.append(env.vars["self"][0])
+                    actual.pop(0)
+                    continue
+                if n == "self" and isinstance(f, ast.Attribute) and "self" in env.vars:
+                    args.append(env.vars["self"][0])
+                    continue
                 if n.startswith("self."):
                     # an attribute the callee reads from the same object: the caller's binding of it
                     if n not in env.vars:
@@ -391,6 +403,22 @@ class Proc(object):
                 key = self.coerce(kt_, kty, dty[1])
                 dflt = self.coerce(dt_, dfty, dty[2])
                 return ("((%s.lookup %s).getD %s)" % (d, key, dflt), dty[2])
+        if fname == "StringIO" and not e.args:
+            return ("([] : List Tok)", "Stream")
+        if isinstance(f, ast.Attribute) and f.attr == "getvalue" and not e.args:
+            t, ty = self.expr(f.value, env)
+            if ty == "Stream":
+                return (t, ty)
+        if isinstance(f, ast.Attribute) and f.attr == "join" and len(e.args) == 1 and self.seg(f.value) in ("os.linesep",):
+            t, ty = self.expr(e.args[0], env)
+            if ty == ("List", "Stream"):
+                return ("(joinStreams %s)" % t, "Stream")
+        if fname == "range" and 1 <= len(e.args) <= 2:
+            lo = "(0 : Int)" if len(e.args) == 1 else self.coerce(*self.expr(e.args[0], env), "Int")
+            hi = self.coerce(*self.expr(e.args[-1], env), "Int")
+            return ("(intRange %s %s)" % (lo, hi), ("List", "Int"))
+        if fname == "tuple" and len(e.args) == 1:
+            return self.expr(e.args[0], env)
         if fname == "list" and len(e.args) == 1:
             t, ty = self.expr(e.args[0], env)
             if isinstance(ty, tuple) and ty[0] == "List":
@@ -446,6 +474,125 @@ class Proc(object):
         if elt != v:
             out = "(%s.map fun %s => %s)" % (out, v, elt)
         return (out, ("List", ety))
+
+    # ------------------------------------------------------------------------------------------------------------------ writers
+    def const_str(self, e, env):
+        """constant-fold a string expression built from literals, `+`, `* <int>` and local names bound to such strings"""
+        if isinstance(e, ast.Constant) and isinstance(e.value, str):
+            return e.value
+        if isinstance(e, ast.Name) and e.id in getattr(self, "strconsts", {}):
+            return self.strconsts[e.id]
+        if isinstance(e, ast.BinOp) and isinstance(e.op, ast.Add):
+            a, b = self.const_str(e.left, env), self.const_str(e.right, env)
+            return None if a is None or b is None else a + b
+        if isinstance(e, ast.BinOp) and isinstance(e.op, ast.Mult) and isinstance(e.right, ast.Constant) and isinstance(e.right.value, int):
+            a = self.const_str(e.left, env)
+            return None if a is None else a * e.right.value
+        return None
+
+    def ov(self, e, env):
+        """an expression used as a format argument -> OV text"""
+        t, ty = self.expr(e, env)
+        if ty == "OV":
+            return t
+        if ty == "Str":
+            return "(OV.str %s)" % t
+        if ty in ("Int", "Nat", "Bool"):
+            return "(OV.int %s)" % self.coerce(t, ty, "Int")
+        if ty == "Rat":
+            return "(OV.num %s)" % t
+        raise Untranslatable("format argument of type %s" % (ty,))
+
+    def fmt_tok(self, e, env, newline=False):
+        """a string-valued expression that is written out -> lean text of ONE token  Tok.mk <format text> <arguments in order of appearance>"""
+        import re
+        nl = "\n" if newline else ""
+        c = self.const_str(e, env)
+        if c is not None:
+            return "(Tok.mk %s [])" % lstr(c + nl)
+        # "..." % x   /  "..." % (a, b)  /  "..." % {name: v}  /  TEMPLATE % tuple(l)
+        if isinstance(e, ast.BinOp) and isinstance(e.op, ast.Mod):
+            fmt = self.const_str(e.left, env)
+            if fmt is None:
+                raise Untranslatable("format string is not a constant")
+            r = e.right
+            if isinstance(r, ast.Dict) or (isinstance(r, ast.Name) and r.id in getattr(self, "dictconsts", {})):
+                d = {}
+                if isinstance(r, ast.Name):
+                    d = dict(self.dictconsts[r.id])
+                else:
+                    for kk, vv in zip(r.keys, r.values):
+                        if not (isinstance(kk, ast.Constant) and isinstance(kk.value, str)):
+                            raise Untranslatable("format dictionary key")
+                        d[kk.value] = vv
+                names = re.findall(r"%\((\w+)\)", fmt)
+                args = []
+                for n in names:
+                    if n not in d:
+                        raise Untranslatable("format names %s, the dictionary has no such key" % n)
+                    args.append(self.ov(d[n], env))
+                return "(Tok.mk %s [%s])" % (lstr(re.sub(r"%\(\w+\)", "%", fmt) + nl), ", ".join(args))
+            if isinstance(r, ast.Tuple):
+                return "(Tok.mk %s [%s])" % (lstr(fmt + nl), ", ".join(self.ov(x, env) for x in r.elts))
+            t, ty = self.expr(r, env)
+            if ty == ("List", "OV"):
+                return "(Tok.mk %s %s)" % (lstr(fmt + nl), t)
+            return "(Tok.mk %s [%s])" % (lstr(fmt + nl), self.ov(r, env))
+        # TEMPLATE.format(name = v, ...)
+        if isinstance(e, ast.Call) and isinstance(e.func, ast.Attribute) and e.func.attr == "format" and not e.args:
+            fmt = self.const_str(e.func.value, env)
+            if fmt is None:
+                raise Untranslatable("format template is not a constant")
+            kw = dict((k.arg, k.value) for k in e.keywords)
+            fields = re.findall(r"\{(\w+)(:[^}]*)?\}", fmt)
+            args = []
+            for n, spec_ in fields:
+                if n not in kw:
+                    raise Untranslatable("template names %s, no such keyword" % n)
+                args.append(self.ov(kw[n], env))
+            if set(kw) - set(n for n, _ in fields):
+                raise Untranslatable("keyword not used by the template")
+            return "(Tok.mk %s [%s])" % (lstr(re.sub(r"\{\w+(:[^}]*)?\}", lambda m: "{%s}" % (m.group(1) or ""), fmt) + nl), ", ".join(args))
+        raise Untranslatable("written expression %s" % (self.seg(e) or "")[:50])
+
+    def stream_statement(self, c, env):
+        """print(E, file=X) / X.write(E) / L.append(E) / WRITER(..., X)  ->  (name, new value text, type, needs_bind) or None"""
+        f = c.func
+        if isinstance(f, ast.Name) and f.id == "print" and len(c.args) == 1 and len(c.keywords) == 1 and c.keywords[0].arg == "file" and isinstance(c.keywords[0].value, ast.Name):
+            x = c.keywords[0].value.id
+            xt, xty = self.expr(c.keywords[0].value, env)
+            if xty != "Stream":
+                raise Untranslatable("print to a %s" % (xty,))
+            return (x, "(%s ++ [%s])" % (xt, self.fmt_tok(c.args[0], env, newline=True)), "Stream", False)
+        if isinstance(f, ast.Attribute) and f.attr == "write" and isinstance(f.value, ast.Name) and len(c.args) == 1 and not c.keywords:
+            xt, xty = self.expr(f.value, env)
+            if xty != "Stream":
+                return None
+            try:
+                vt, vty = self.expr(c.args[0], env)
+            except Untranslatable:
+                vt, vty = None, None
+            if vty == "Stream":
+                return (f.value.id, "(%s ++ %s)" % (xt, vt), "Stream", False)
+            return (f.value.id, "(%s ++ [%s])" % (xt, self.fmt_tok(c.args[0], env)), "Stream", False)
+        if isinstance(f, ast.Attribute) and f.attr == "append" and isinstance(f.value, ast.Name) and len(c.args) == 1 and not c.keywords:
+            xt, xty = self.expr(f.value, env)
+            if isinstance(xty, tuple) and xty[0] == "List":
+                vt, vty = self.expr(c.args[0], env)
+                return (f.value.id, "(%s ++ [%s])" % (xt, self.coerce(vt, vty, xty[1])), xty, False)
+        # a writer called for its effect on a stream argument
+        fname = f.id if isinstance(f, ast.Name) else (f.attr if isinstance(f, ast.Attribute) and isinstance(f.value, ast.Name) and f.value.id in ("self", "cls") else None)
+        p = self.procs.get((self.spec["file"], fname))
+        if p is not None and p.get("inout"):
+            names = [n for n, _ in p["params"] if not n.startswith("self.") and n != "self"]
+            if len(c.args) != len(names):
+                raise Untranslatable("arity of %s" % fname)
+            idx = names.index(p["inout"])
+            if not isinstance(c.args[idx], ast.Name):
+                raise Untranslatable("stream argument of %s is not a variable" % fname)
+            vt, vty = self.call(c, env)
+            return (c.args[idx].id, vt, "Stream", isinstance(vty, tuple) and vty[0] == "Except")
+        return None
 
     # -------------------------------------------------------------------------------------------------------------- conditions
     def cond(self, e, env, kt, kf):
@@ -528,6 +675,8 @@ class Proc(object):
             return self.block(rest, env, k)
         if isinstance(s, ast.Return):
             if s.value is None:
+                if self.spec.get("inout"):
+                    return self.wrap_ret(*env.vars[self.spec["inout"]])
                 return self.wrap_ret("none", "None") if self.inner_ret() != "Unit" else self.wrap_ret("()", "Unit")
             # `return a, b` with componentwise coercion
             if isinstance(s.value, ast.Tuple) and isinstance(self.inner_ret(), tuple) and self.inner_ret()[0] == "Prod":
@@ -558,6 +707,16 @@ class Proc(object):
                     en = self.assign_name(el, tname, vty, en)[1]
                     out += self.assign_name(el, tname, vty, env)[0]
                 return out + self.block(rest, en, k)
+            if isinstance(tgt, ast.Name) and self.const_str(s.value, env) is not None and self.spec.get("writer"):
+                if not hasattr(self, "strconsts"):
+                    self.strconsts = {}
+                self.strconsts[tgt.id] = self.const_str(s.value, env)      # a format template: folded into the tokens that use it
+                return self.block(rest, env, k)
+            if isinstance(tgt, ast.Name) and self.spec.get("writer") and isinstance(s.value, ast.Call) and isinstance(s.value.func, ast.Name) and s.value.func.id == "dict" and not s.value.args:
+                if not hasattr(self, "dictconsts"):
+                    self.dictconsts = {}
+                self.dictconsts[tgt.id] = dict((kw.arg, kw.value) for kw in s.value.keywords)      # parameters of a %-template: folded into the token
+                return self.block(rest, env, k)
             if isinstance(s.value, ast.Dict) and isinstance(tgt, (ast.Name, ast.Attribute)):
                 keys = [self.expr(x, env) for x in s.value.keys]
                 vals = [self.expr(x, env) for x in s.value.values]
@@ -596,6 +755,21 @@ class Proc(object):
                 raise Untranslatable("sort of %s" % (xty,))
             txt, en = self.assign_name(s.value.func.value, "(stableSortBy (fun a b => decide (%s a b ≤ 0)) %s)" % (self.procs[(self.spec["file"], cmpf)]["name"], xs), xty, env)
             return txt + self.block(rest, en, k)
+        if isinstance(s, ast.Expr) and isinstance(s.value, ast.Yield):
+            vt, vty = self.expr(s.value.value, env)
+            elt = self.inner_ret()[1]
+            txt, en = self.assign_name(ast.Name(id="_yielded", ctx=ast.Store()), "(%s ++ [%s])" % (env.vars["_yielded"][0], self.coerce(vt, vty, elt)), self.inner_ret(), env)
+            return txt + self.block(rest, en, k)
+        if isinstance(s, ast.Expr) and isinstance(s.value, ast.Call):
+            w = self.stream_statement(s.value, env)
+            if w is not None:
+                name, newval, ty, bind = w
+                if bind:          # a raising writer: propagate the error
+                    n = env.fresh("v")
+                    txt, en = self.assign_name(ast.Name(id=name, ctx=ast.Store()), n, ty, env)
+                    return "(andThen %s fun %s =>\n%s%s)" % (newval, n, txt, self.block(rest, en, k))
+                txt, en = self.assign_name(ast.Name(id=name, ctx=ast.Store()), newval, ty, env)
+                return txt + self.block(rest, en, k)
         if isinstance(s, ast.Expr) and isinstance(s.value, ast.Call):
             # statement call of a raising proc:  self._check_positive(...)
             vt, vty = self.expr(s.value, env)
@@ -679,9 +853,9 @@ class Proc(object):
         self.declared_types = {}
         env = Env()
         args = [a.arg for a in self.fn.args.args]
-        if args and args[0] in ("self", "cls"):
-            args = args[1:]
         declared = self.spec["params"]
+        if args and args[0] in ("self", "cls") and not any(n == "self" for n, _ in declared):
+            args = args[1:]
         if [n for n, _ in declared if not n.startswith("self.")] != args:
             raise Untranslatable("signature is (%s), expected (%s)" % (", ".join(args), ", ".join(n for n, _ in declared)))
         sig = "".join(" (%s : %s)" % (n, lty(t)) for n, t in self.fixed)
@@ -697,7 +871,15 @@ class Proc(object):
                 return self.wrap_ret("none", "None")
             if inner == "Unit":
                 return self.wrap_ret("()", "Unit")
+            if self.spec.get("inout"):
+                # a function that writes into a stream it was given returns the stream's new content
+                return self.wrap_ret(*en.vars[self.spec["inout"]])
+            if self.spec.get("generator"):
+                return self.wrap_ret(*en.vars["_yielded"])
             raise Untranslatable("control can fall off the end of a function that must return a %s" % lty(inner))
+        if self.spec.get("generator"):
+            env.vars["_yielded"] = ("([] : %s)" % lty(self.inner_ret()), self.inner_ret())
+            self.declared_types["_yielded"] = self.inner_ret()
         body = self.block(self.fn.body, env, fall_off)
         body = "\n".join("  " + l for l in body.split("\n"))
         return "".join(a + "\n" for a in self.aux) + "def %s%s : %s :=\n%s\n" % (self.name, sig, lty(self.ret), body)
@@ -711,6 +893,9 @@ def k_for_loop(proc, k, outer_env, inner_env):
 # --------------------------------------------------------------------------------------------------------------------------------
 RD_REC = {"PRange": {"start": ("start", "Int"), "range_type": ("range_type", "Str"), "potential_form": ("f", "Nat")}}
 
+POT_REC = {"PotRec": {"speciesA": ("a", "Str"), "speciesB": ("b", "Str")}}
+POT_METHODS = {("PotRec", "energy"): ("energyOf", ["Rat"], "OV"), ("PotRec", "force"): ("forceOf", ["Rat"], "OV")}
+TAB_REC = {"TabRec": {"nr": ("nr", "Int"), "cutoff": ("cutoff", "Rat"), "potentials": ("potentials", ("List", ("Rec", "PotRec")))}}
 CALLABLE_REC = {"Callable": {"has_deriv": ("has_deriv", "Bool"), "has_deriv2": ("has_deriv2", "Bool")}}
 
 PROCS = [
@@ -747,6 +932,26 @@ PROCS = [
          params=[("r", "Rat")], ret="Rat", implicit=[("derivFunction", ("Fun", ["Rat"], "Rat"))], ops={"_derivFunction": ("derivFunction", ["Rat"], "Rat")}),
     dict(name="potential_energy", file="_potential.py", func="Potential.energy",
          params=[("r", "Rat")], ret="Rat", implicit=[("potentialFunction", ("Fun", ["Rat"], "Rat"))], ops={"_potentialFunction": ("potentialFunction", ["Rat"], "Rat")}),
+    # ---- C01 / C02 / C19: the pair-table writers themselves
+    dict(name="lammps_write_single", file="_lammps_writeTABLE.py", func="_writeSinglePotential", writer=True, inout="out",
+         params=[("pot", ("Rec", "PotRec")), ("minr", "Rat"), ("maxr", "Rat"), ("gridPoints", "Int"), ("out", "Stream")], ret="Stream", records=POT_REC, methods=POT_METHODS),
+    dict(name="lammps_write_potentials", file="_lammps_writeTABLE.py", func="writePotentials", writer=True, inout="out",
+         params=[("potentials", ("List", ("Rec", "PotRec"))), ("minr", "Rat"), ("maxr", "Rat"), ("gridPoints", "Int"), ("out", "Stream")], ret="Stream", records=POT_REC, methods=POT_METHODS,
+         locals={"potlines": ("List", "Stream")}),
+    dict(name="dlpoly_write_potential", file="_dlpoly_writeTABLE.py", func="_writePotential", writer=True, inout="out",
+         params=[("potential", ("Rec", "PotRec")), ("cutoff", "Rat"), ("gridPoints", "Int"), ("meshResolution", "Rat"), ("out", "Stream")], ret=("Except", "WErr", "Stream"),
+         raises=[("divisible by 4", "WErr.notMultipleOfFour")], records=POT_REC, methods=POT_METHODS, locals={"l": ("List", "OV")},
+         ops={"_representable": ("representable", ["OV"], "OV"), "_calculateForce": ("rForceOf", [("Rec", "PotRec"), "Rat"], "OV")}),
+    dict(name="dlpoly_write_header", file="_dlpoly_writeTABLE.py", func="_writeTableHeader", writer=True, inout="out",
+         params=[("delpot", "Rat"), ("cutpot", "Rat"), ("ngrid", "Int"), ("out", "Stream")], ret="Stream"),
+    dict(name="dlpoly_write_potentials", file="_dlpoly_writeTABLE.py", func="writePotentials", writer=True, inout="out",
+         params=[("potentials", ("List", ("Rec", "PotRec"))), ("cutoff", "Rat"), ("gridPoints", "Int"), ("out", "Stream")], ret=("Except", "WErr", "Stream"), records=POT_REC, methods=POT_METHODS),
+    dict(name="r_value_iterator", file="pair_tabulation.py", func="_r_value_iterator", generator=True,
+         params=[("tabulation", ("Rec", "TabRec"))], ret=("List", "Rat"), records=TAB_REC),
+    dict(name="gulp_write_pot", file="pair_tabulation.py", func="GULP_PairTabulation._write_pot", writer=True, inout="fp",
+         params=[("self", ("Rec", "TabRec")), ("pot", ("Rec", "PotRec")), ("fp", "Stream")], ret="Stream", records=dict(POT_REC, **TAB_REC), methods=POT_METHODS),
+    dict(name="gulp_write", file="pair_tabulation.py", func="GULP_PairTabulation.write", writer=True, inout="fp",
+         params=[("self", ("Rec", "TabRec")), ("fp", "Stream")], ret="Stream", records=dict(POT_REC, **TAB_REC), methods=POT_METHODS),
     # ---- C13: species filter
     dict(name="check_tuple", file="config/_filtered_config_parser.py", func="FilteredConfigParser._check_tuple",
          params=[("self._self_species_list", ("List", "Str")), ("self._self_exclude_flag", "Bool"), ("check_tuple", ("List", "Str"))], ret="Bool"),
@@ -792,6 +997,55 @@ structure Callable where
   fid : Nat
   has_deriv : Bool
   has_deriv2 : Bool
+deriving DecidableEq, Repr
+
+/-! ### what the table writers emit
+
+A writer's output is a list of tokens: ONE token per `print` / `write` call, holding the format text as written in the source (named `%(x)` / `{x}` fields
+made positional) and the arguments in the order the format uses them.  Potentials are opaque: `pot.energy(r)` is the value `energy of function fid at r`. -/
+
+inductive OV where
+  | int (i : Int) | num (q : Rat) | str (s : String)
+  | fn (what : String) (fid : Nat) (x : Rat)       -- `pot.energy(r)`, `pot.force(r)`, `_calculateForce(pot, r)`
+  | repr (v : OV)                                  -- `_representable(v)`
+deriving DecidableEq, Repr
+
+structure Tok where
+  fmt : String
+  args : List OV
+deriving DecidableEq, Repr
+
+structure PotRec where
+  a : String
+  b : String
+  fid : Nat
+deriving DecidableEq, Repr
+
+/-- a pair tabulation object as its writers read it -/
+structure TabRec where
+  nr : Int
+  cutoff : Rat
+  potentials : List PotRec
+deriving Repr
+
+def energyOf (p : PotRec) (r : Rat) : OV := .fn "energy" p.fid r
+def forceOf (p : PotRec) (r : Rat) : OV := .fn "force" p.fid r
+def rForceOf (p : PotRec) (r : Rat) : OV := .fn "r*force" p.fid r
+def representable (v : OV) : OV := .repr v
+
+/-- `range(a, b)` -/
+def intRange (a b : Int) : List Int := (List.range (b - a).toNat).map fun (k : Nat) => a + (k : Int)
+
+def sepTok : Tok := ⟨"<os.linesep>", []⟩
+
+/-- `os.linesep.join(blocks)` -/
+def joinStreams : List (List Tok) → List Tok
+  | [] => []
+  | [x] => x
+  | x :: y :: rest => x ++ [sepTok] ++ joinStreams (y :: rest)
+
+inductive WErr where
+  | notMultipleOfFour
 deriving DecidableEq, Repr
 
 /-- the configuration errors raised by the translated functions, identified by their message -/
